@@ -1,3 +1,3 @@
 def load_all():
-    from . import base, utils_c, tokens_c, tree, data_c, reader_c, top_c
+    from . import base, utils_c, tokens_c, tree, data_c, texargs_c, reader_c, top_c
     return base.REG
